@@ -79,7 +79,13 @@ class Explorer:
 
     def _sample(self, nominal, n):
         r = self.rng
-        sc = np.array([0.02, 0.1, 0.35, 1.0, 3.0])[r.randint(0, 5, size=n)] * self.scale
+        # half of the points use ONE noise scale for all variables (so that box-shaped assumptions around the nominal
+        # geometry keep many witnesses), the other half an independent scale per variable
+        if getattr(self, '_ptscale', None) is None or len(self._ptscale) != n:
+            self._ptscale = np.array([0.004, 0.02, 0.1, 0.35, 1.0, 3.0])[np.random.RandomState(self.seed + 13).randint(0, 6, size=n)]
+        own = np.array([0.02, 0.1, 0.35, 1.0, 3.0])[r.randint(0, 5, size=n)]
+        half = np.arange(n) % 2 == 0
+        sc = np.where(half, self._ptscale, own) * self.scale
         x = nominal + sc * r.uniform(-1, 1, size=n)
         return np.round(x * 1024) / 1024
 
